@@ -1,6 +1,6 @@
 SPECIFICATION Spec
 CONSTANTS
-  Modes = {"getopts", "count", "breadth", "params", "syntax", "slice"}
+  Modes = {"getopts", "count", "breadth", "params", "syntax", "slice", "arith"}
   GMaxHist = 2
   GMaxArgs = 2
   GWordIds = {1, 2, 3, 4, 5, 6, 7, 8, 9, 10}
